@@ -5,7 +5,7 @@ Require Import Selen.Model.Prelude Selen.Model.Dom Selen.Model.Views Selen.Model
 Require Import Selen.Model.Props.Basic Selen.Model.Props.LinInt Selen.Model.Propagate Selen.Model.Search Selen.Model.EngineSpec.
 Require Import Selen.Model.Api Selen.Model.Lower.
 Require Import Selen.Proofs.DomProofs Selen.Proofs.Props.BasicProofs Selen.Proofs.EngineProofs Selen.Proofs.LowerProofs.
-Require Selen.Proofs.Props.NeqProofs.
+Require Selen.Proofs.Props.NeqProofs Selen.Proofs.Props.LogicProofs Selen.Proofs.Props.LinIntProofs.
 
 Lemma fixed_asg : forall (t : store) a v, all_fixed t = true -> inst a t -> (v < length t)%nat -> asg_of t v = a v.
 Proof.
@@ -32,7 +32,6 @@ Section Solve.
   Theorem fluent_model_solutions : forall decls posts s ps pick sols best,
     forallb is_decl decls = true ->
     Forall (post_wf (length decls)) posts ->
-    (forall c, In (SNew c) posts -> kf_or_not (fold_cons c) = false) ->
     lower (build (decls ++ posts)) = LOk s ps ->
     Forall good (map den ps) -> scoped (map den ps) (length s) -> wf_store s ->
     enumerate pick (map den ps) s = SOk sols best ->
@@ -41,16 +40,16 @@ Section Solve.
     (forall t, In t sols -> all_fixed t = true /\ means (asg_of t)) /\
     (forall a, means a -> exists t, In t sols /\ agree (length decls) a (asg_of t)).
   Proof.
-    intros decls posts s ps pick sols best Hd Hw Hk Hl Hg Hsc Hwf He means.
+    intros decls posts s ps pick sols best Hd Hw Hl Hg Hsc Hwf He means.
     pose proof (wf_store_nonempty s Hwf) as Hne.
     destruct (EngineProofs.enumerate_exact BasicProofs.mk_leq_good BasicProofs.mk_gt_good BasicProofs.mk_lt_good
                 pick (map den ps) s sols best Hg Hsc Hwf He) as [Nd [Snd Cmp]].
     split; [exact Nd|]. split.
     - intros t Ht. destruct (Snd t Ht) as [Hf [_ Hs]]. split; [exact Hf|].
       apply sol_allsat in Hs. destruct Hs as [Hi Hs].
-      apply (lower_denotes decls posts Hd Hw Hk s ps Hl Hne (asg_of t)).
+      apply (lower_denotes decls posts Hd Hw s ps Hl Hne (asg_of t)).
       exists (asg_of t). split; [apply agree_refl|auto].
-    - intros a Ha. apply (lower_denotes decls posts Hd Hw Hk s ps Hl Hne a) in Ha.
+    - intros a Ha. apply (lower_denotes decls posts Hd Hw s ps Hl Hne a) in Ha.
       destruct Ha as [a' [A [Hi Hs]]].
       destruct (Cmp a' (proj2 (sol_allsat ps s a') (conj Hi Hs))) as [t [Ht Hit]].
       exists t. split; [exact Ht|]. destruct (Snd t Ht) as [Hf [[Hlen _] _]].
@@ -62,11 +61,11 @@ Section Solve.
   Qed.
 End Solve.
 
-(* the kinds of Props/Basic.v and Props/LinInt.v; Mul / Modulo come from Props/Arith.v *)
+(* the kinds of Props/Basic.v, Props/LinInt.v and Props/Logic.v; Mul / Modulo come from Props/Arith.v *)
 Definition den_basic (p : pdesc) : prop :=
   match denote_basic p with Some q => q | None => mkprop (fun c => Some c) (psat p) [] end.
 Lemma den_basic_sat : forall p a, sat (den_basic p) a = psat p a.
-Proof. intros p a; destruct p; reflexivity. Qed.
+Proof. intros p a; destruct p; try reflexivity. destruct op; reflexivity. Qed.
 
 (* the lowered `!=` (Propagators::not_equals, Props/Neq.v after the repair 106df3d) meets the local
    contracts, so the premise `Forall good` of fluent_model_solutions can be discharged for it *)
@@ -97,4 +96,45 @@ Lemma nested_ne_prefix_refuted : exists s ps sols best t,
 Proof.
   do 4 eexists. exists [[0]; [0]; [1]]. cbv zeta.
   split; [vm_compute; reflexivity|]. split; [vm_compute; reflexivity|]. split; [simpl; auto|reflexivity].
+Qed.
+
+(* ---- D3 repaired (Or / Not lowered through reification) ---- *)
+(* the propagators the reified lowering pushes meet the local contracts (C05_Logic, C05): the premise
+   `Forall good` of fluent_model_solutions can be discharged for them *)
+Lemma pcmpr_good : forall op x y b, good (den_basic (PCmpR op x y b)).
+Proof.
+  intros op x y b; destruct op;
+  [exact (LogicProofs.mk_eq_reif_good x y b)|exact (LogicProofs.mk_ne_reif_good x y b)|exact (LogicProofs.mk_lt_reif_good x y b)
+  |exact (LogicProofs.mk_le_reif_good x y b)|exact (LogicProofs.mk_gt_reif_good x y b)|exact (LogicProofs.mk_ge_reif_good x y b)].
+Qed.
+Lemma pandr_good : forall xs r, good (den_basic (PAndR xs r)).
+Proof. intros; exact (LogicProofs.mk_band_good xs r). Qed.
+Lemma porr_good : forall xs r, good (den_basic (POrR xs r)).
+Proof. intros; exact (LogicProofs.mk_bor_good xs r). Qed.
+Lemma pnotr_good : forall o r, good (den_basic (PNotR o r)).
+Proof. intros; exact (LogicProofs.mk_bnot_good o r). Qed.
+Lemma plinr_good : forall cs xs k b, all_zero cs xs = false ->
+  good (den_basic (PLinEqR cs xs k b)) /\ good (den_basic (PLinLeR cs xs k b)) /\ good (den_basic (PLinNeR cs xs k b)).
+Proof.
+  intros cs xs k b H. split; [exact (LinIntProofs.mk_lin_eq_reif_good cs xs k b H)|].
+  split; [exact (LinIntProofs.mk_lin_le_reif_good cs xs k b H)|exact (LinIntProofs.mk_lin_ne_reif_good cs xs k b H)].
+Qed.
+
+(* end to end: x in 0..3.  x <= 1 \/ x >= 3 enumerates exactly x = 0, 1, 3; not (x <= 1) exactly x = 2, 3;
+   not (x <= 0 \/ (x >= 2 /\ x != 3)) (nested combinators) exactly x = 1, 3 -- each solution once *)
+Definition user0 (sols : list store) : list Z := map (fun t => asg_of t 0%nat) sols.
+Lemma or_not_repaired_enumerate :
+  (exists s ps sols best,
+    lower (build ([SInt 0 3] ++ [SNew c_or_w])) = LOk s ps /\
+    enumerate fifo (map den_basic ps) s = SOk sols best /\ user0 sols = [0; 1; 3]) /\
+  (exists s ps sols best,
+    lower (build ([SInt 0 3] ++ [SNew c_not_w])) = LOk s ps /\
+    enumerate fifo (map den_basic ps) s = SOk sols best /\ user0 sols = [2; 3]) /\
+  (exists s ps sols best,
+    let c := CNot (COr (CBin x0 OLe (EVal 0)) (CAnd (CBin x0 OGe (EVal 2)) (CBin x0 ONe (EVal 3)))) in
+    lower (build ([SInt 0 3] ++ [SNew c])) = LOk s ps /\
+    enumerate fifo (map den_basic ps) s = SOk sols best /\ user0 sols = [1; 3]).
+Proof.
+  split; [|split]; do 4 eexists; cbv zeta;
+  (split; [vm_compute; reflexivity|]); (split; [vm_compute; reflexivity|]); vm_compute; reflexivity.
 Qed.
